@@ -1,3 +1,14 @@
 #!/bin/bash
-# placeholder; replaced once the build pipeline exists
-exit 0
+# Builds the framework from files on disk only (offline): the simgo instrumenter,
+# the Go build cache for both toolchains, and the simulators for /repo's current tree.
+set -e
+cd "$(dirname "$0")"
+export GOFLAGS=-mod=mod GOPROXY=off GOSUMDB=off GOTOOLCHAIN=local
+python3 - <<'PY'
+import importlib.util, importlib.machinery, sys, os
+spec = importlib.util.spec_from_loader("check", importlib.machinery.SourceFileLoader("check", os.path.join(os.getcwd(), "check")))
+m = importlib.util.module_from_spec(spec); spec.loader.exec_module(m)
+m.ensure_simgo()
+bdir, tree = m.ensure_build(need_race=True)
+print("setup: simulators built in", bdir, "for tree", tree)
+PY
